@@ -753,8 +753,10 @@ def _get_spans_for_2_fields_njit(ndarray0, ndarray1, spans):
         if ndarray0[i] != ndarray0[i - 1] or ndarray1[i] != ndarray1[i - 1]:
             count += 1
             spans[count] = i
-    spans[count + 1] = len(ndarray0)
-    return spans[:count + 2]
+    if len(ndarray0) > 0:  # close the last span; with no rows the result is [0]
+        count += 1
+        spans[count] = len(ndarray0)
+    return spans[:count + 1]
 
 
 def _get_spans_for_multi_fields(fields_data):
@@ -782,8 +784,10 @@ def _get_spans_for_multi_fields_njit(fields_data, spans):
             count += 1
             spans[count] = i
 
-    spans[count + 1] = length
-    return spans[:count + 2]
+    if length > 0:  # close the last span; with no rows the result is [0]
+        count += 1
+        spans[count] = length
+    return spans[:count + 1]
 
 
 @exetera_njit
